@@ -19,6 +19,7 @@
 -/
 import RigoProofs.C05Noop
 import RigoProofs.C05CongrMain
+import RigoProofs.C05Recv
 open Std
 
 namespace Rigo.C05
@@ -122,7 +123,8 @@ def failed_tx_invisible_statement : Prop :=
     answers the same code and ends in an observably equal state as if the failed transaction had never been
     delivered.  Hypotheses beyond the statement above: `KeyCompat` — no address whose (empty) record the
     failed transaction created shares its 32-byte ledger key with a DIFFERENT address the later transaction
-    finds-or-creates (only possible for receivers of a length other than 20 bytes) — and `CreatedListed` —
+    finds-or-creates (only possible for addresses of different lengths; since repair 26f8ae4 a receiver
+    of a wrong length gets no record, see `failed_tx_invisible_recv20` below) — and `CreatedListed` —
     a successful deployment's created address is among the addresses the EVM result lists.  Proved by a
     relational pass (`C05C.Sim`: same state up to empty records under fresh keys) over every validation
     and execution function: `C05C.handleTx_congr`, `C05C.deliverTx_congr`. -/
@@ -145,6 +147,30 @@ theorem failed_tx_invisible_wf :
       ((deliverTx (deliverTx s tx).1 later).2.tx.map (·.code)) = ((deliverTx s later).2.tx.map (·.code)) ∧
       obs (deliverTx (deliverTx s tx).1 later).1 = obs (deliverTx s later).1 :=
   C05C.failed_tx_invisible_wf
+
+/-- **wrong_length_receiver_invisible** (repair 26f8ae4: a receiver `To` of a wrong length gets no account
+    record before validation rejects it).  A delivery whose receiver is not 20 bytes long returns the
+    state it was given; every later delivery therefore behaves exactly — same answer, same state — as if
+    it had never been delivered.  No hypothesis at all (any state, any two transactions). -/
+theorem wrong_length_receiver_invisible (s : St) (tx : TxIn) (hl : byteLen tx.to ≠ 20) (later : TxIn) :
+    (deliverTx s tx).1 = s ∧ deliverTx (deliverTx s tx).1 later = deliverTx s later :=
+  ⟨deliverTx_badlen hl, C05C.wrong_length_receiver_invisible s tx hl later⟩
+
+/-- **failed_tx_invisible_recv20**: `failed_tx_invisible_wf` without any hypothesis on the LENGTH of the two
+    receivers.  Receivers are hex strings of whole bytes (`EvenHex`), the addresses the EVM results list
+    are 20-byte addresses (`EvmIn20` for the failed transaction: only addresses synced in can have got a
+    record; `EvmAddrs20` for the later one), a deployment's created address is listed.  A failed
+    transaction with a receiver of a wrong length creates no record, a later transaction with such a
+    receiver fails in validation either way; `failed_tx_invisible_wf` is the special case of 20-byte
+    receivers (`C05C.failed_tx_invisible_wf_of_recv20`). -/
+theorem failed_tx_invisible_recv20 :
+    ∀ (g : Genesis) (s : St), Reachable g s → ∀ tx : TxIn, FeeSane s → 0 < s.active.minTrxFee →
+    (∀ a, s.accts.fin[ledgerKey tx.from_]? = some a → a.bal < 2 ^ 256) →
+    (∀ o, (deliverTx s tx).2.tx = some o → o.code ≠ 0) → C05C.EvenHex tx.to → C05C.EvmIn20 tx →
+    ∀ later : TxIn, C05C.EvenHex later.to → C05C.EvmAddrs20 later → C05C.EvmCreatedListed later →
+      ((deliverTx (deliverTx s tx).1 later).2.tx.map (·.code)) = ((deliverTx s later).2.tx.map (·.code)) ∧
+      obs (deliverTx (deliverTx s tx).1 later).1 = obs (deliverTx s later).1 :=
+  C05C.failed_tx_invisible_recv20
 
 /-! #### counter-example without a positive minimum fee
 
@@ -205,5 +231,19 @@ example : 0 < sW.active.minTrxFee ∧ C05C.Addrs20 txPoor ∧ C05C.Addrs20 txLat
 /-- … and its conclusion agrees with direct evaluation (the later transfer succeeds either way) -/
 example : ((deliverTx (deliverTx sW txPoor).1 txLater).2.tx.map (·.code)) = some 0 ∧
     ((deliverTx sW txLater).2.tx.map (·.code)) = some 0 := by decide
+
+/-- a transfer to a 19-byte receiver: fails with "address" and leaves no record -/
+def txShortRecv : TxIn :=
+  { sigOk := true, from_ := "aa00000000000000000000000000000000000001", to := "bb000000000000000000000000000000000000",
+    amount := 5, gas := 2, price := 10, type := TRX_TRANSFER }
+instance (a : Hex) : Decidable (C05C.EvenHex a) := by unfold C05C.EvenHex; infer_instance
+/-- the hypotheses of `failed_tx_invisible_recv20` are met by `gW`, `sW`, `txShortRecv` (receiver of a wrong
+    length, not covered by `failed_tx_invisible_wf`) and `txLater` -/
+example : byteLen txShortRecv.to ≠ 20 ∧ ¬ C05C.Addrs20 txShortRecv ∧
+    ((deliverTx sW txShortRecv).2.tx.map fun t => (t.code, t.kind)) = some (5, "address") ∧
+    C05C.EvenHex txShortRecv.to ∧ C05C.EvmIn20 txShortRecv ∧
+    C05C.EvenHex txLater.to ∧ C05C.EvmAddrs20 txLater ∧ C05C.EvmCreatedListed txLater :=
+  ⟨by decide, by decide, by decide, by decide, (fun o ho => by cases ho), by decide, (fun o ho => by cases ho),
+   (fun o ho => by cases ho)⟩
 
 end Rigo.C05
